@@ -25,7 +25,7 @@ namespace ChamVerif
 /-- **C20 on the whole render function**: a text-mode template whose source holds no `${` renders as its source
 (newlines normalised, `$$` → `$`): whatever `<`, `&`, quotes, tag-like or `tal:`-like text it contains. -/
 theorem C20_render_verbatim (r : RenderReq) (ht : r.textMode = true) (hq : r.bcfg.q.textModeIdentify = false)
-    (hi : r.bcfg.implicitI18nTranslate = false) (hn : hasInterp (normalizeNewlines r.src) = false) :
+    (hi : r.bcfg.implicitI18nTranslate = false) (hn : hasInterp (normalizeNewlines r.src) = false) (hl : r.libs = []) :
     render r = .out (undoubleDollar (normalizeNewlines r.src)) #[] #[] 0 := by
   unfold render
   simp only [ht, Bool.not_true, Bool.and_false, if_false, Bool.false_eq_true]
@@ -37,7 +37,7 @@ theorem C20_render_verbatim (r : RenderReq) (ht : r.textMode = true) (hq : r.bcf
     intro tc strict f s
     simp [compileCheck, checkNode, checkNodes, bind, pure, Except.bind, Except.pure]
   rw [hc]
-  simp only []
+  simp only [hl, List.foldlM_nil, pure, Except.pure]
   rw [C20_eval_text (top := []) (rest := []) (hs := rfl)]
   simp
 end ChamVerif
